@@ -305,28 +305,29 @@ def specPseudo (sf : Bool) (k : ObsKind) (p : Option Ops) (parent : CSet) (sb : 
   match p with
   | none => (sb, [])
   | some o =>
-    let s := applyOps sf (inheritCounters parent sb.set sb.last) sb.next sb.ids o
-    ({ set := s, ids := sb.next :: sb.ids, last := s, next := sb.next + 1 }, [⟨k, s.values⟩])
+    ({ set := applyOps sf (inheritCounters parent sb.set sb.last) sb.next sb.ids o, ids := sb.next :: sb.ids,
+       last := applyOps sf (inheritCounters parent sb.set sb.last) sb.next sb.ids o, next := sb.next + 1 },
+     [⟨k, (applyOps sf (inheritCounters parent sb.set sb.last) sb.next sb.ids o).values⟩])
 
 mutual
+  /-- an element: inherit, apply its own properties, then visit ::before, the children and ::after as
+      its children (their "parent" set is the element's), and hand its own set to the next sibling
+      together with the set of the last element visited (the value source) -/
   def specWalk (sf : Bool) : Elem → CSet → Sib → Sib × List Obs
     | .node dn ops b a ch, parent, sb =>
       if dn then (sb, [])
       else
-        let self := sb.next
-        let s := applyOps sf (inheritCounters parent sb.set sb.last) self sb.ids ops
+        let s := applyOps sf (inheritCounters parent sb.set sb.last) sb.next sb.ids ops
         let mo : List Obs := if ops.listItem then [⟨.marker, s.values⟩] else []
-        let inner : Sib := { set := [], ids := [], last := s, next := self + 1 }
-        let (inner, bo) := specPseudo sf .before b s inner
-        let (inner, co) := specWalkList sf ch s inner
-        let (inner, ao) := specPseudo sf .after a s inner
-        ({ set := s, ids := self :: sb.ids, last := inner.last, next := inner.next }, mo ++ bo ++ co ++ ao)
+        let r1 := specPseudo sf .before b s { set := [], ids := [], last := s, next := sb.next + 1 }
+        let r2 := specWalkList sf ch s r1.1
+        let r3 := specPseudo sf .after a s r2.1
+        ({ set := s, ids := sb.next :: sb.ids, last := r3.1.last, next := r3.1.next }, mo ++ r1.2 ++ r2.2 ++ r3.2)
   def specWalkList (sf : Bool) : List Elem → CSet → Sib → Sib × List Obs
     | [], _, sb => (sb, [])
     | e :: es, parent, sb =>
-      let (sb, o1) := specWalk sf e parent sb
-      let (sb, o2) := specWalkList sf es parent sb
-      (sb, o1 ++ o2)
+      ((specWalkList sf es parent (specWalk sf e parent sb).1).1,
+       (specWalk sf e parent sb).2 ++ (specWalkList sf es parent (specWalk sf e parent sb).1).2)
 end
 
 /-- the root starts with the `footnote` counter the renderer defines for the document -/
